@@ -206,6 +206,37 @@ Definition may_call (t : chain_tables) (u : uses_tables) (m : method_decl) (orde
   | _ => []
   end.
 
+(* ------------------------------------------------------------------ the callback classes and the data iterators *)
+Definition kind_word (k : kind) : string :=
+  match k with Kern => "kernel" | Dist => "distance" | Feat => "features" end.
+
+Definition dummy_class (k : kind) : string := "dummy_" ++ kind_word k ++ "_callback".
+
+Fixpoint find_class3 (cs : list (string * bool * list (string * bool))) (n : string)
+  : option (bool * list (string * bool)) :=
+  match cs with
+  | [] => None
+  | (c, mk, ms) :: r => if String.eqb c n then Some (mk, ms) else find_class3 r n
+  end.
+
+Definition starts_with (p s : string) : bool := String.eqb (substring 0 (String.length p) s) p.
+
+(* is_dummy<T> is true exactly of the three dummy classes (they carry `typedef int dummy`), every member function
+   of a dummy throws, and no real callback class is marked or throws unconditionally *)
+Definition callback_classes_ok (u : uses_tables) : bool :=
+  forallb (fun k => match find_class3 (u_callback_classes u) (dummy_class k) with
+                    | Some (true, ms) => negb (match ms with [] => true | _ => false end) &&
+                                         forallb (fun m => snd m) ms
+                    | _ => false
+                    end) all_kinds &&
+  forallb (fun c => match c with
+                    | (n, mk, ms) => if starts_with "dummy_" n then mk
+                                     else negb mk && forallb (fun m => negb (snd m)) ms
+                    end) (u_callback_classes u).
+
+(* "iterators are dereferenced only to pass values to callbacks" *)
+Definition derefs_ok (u : uses_tables) : bool := forallb (fun d => snd d) (u_derefs u).
+
 (* ------------------------------------------------------------------ the code before the F13 repair *)
 (* defines/methods.hpp at the pinned commit said  ManifoldSculpting("Manifold Sculpting", RequiresFeatures) *)
 Definition retrait (name trait : string) (m : method_decl) : method_decl :=
@@ -216,7 +247,8 @@ Definition retrait (name trait : string) (m : method_decl) : method_decl :=
 Definition with_trait (u : uses_tables) (name trait : string) : uses_tables :=
   {| u_trait_fields := u_trait_fields u; u_traits := u_traits u; u_method_inits := u_method_inits u;
      u_guards := u_guards u; u_base_refs := u_base_refs u; u_base_unguarded := u_base_unguarded u;
-     u_methods := map (retrait name trait) (u_methods u); u_dispatched := u_dispatched u |}.
+     u_methods := map (retrait name trait) (u_methods u); u_dispatched := u_dispatched u;
+     u_callback_classes := u_callback_classes u; u_deref_files := u_deref_files u; u_derefs := u_derefs u |}.
 
 Definition uses_before_F13 (u : uses_tables) : uses_tables := with_trait u "ManifoldSculpting" "RequiresFeatures".
 
